@@ -196,7 +196,8 @@ func runCases(args []string) {
 		meta.ShardIndex[name] = idxs[fam]
 		lits[fam], idxs[fam] = nil, nil
 	}
-	// Every input is executed three times against the real code.  The observables are canonical, so the three
+	// Every input is executed three times against the real code (the second and third time with lists built in reused
+	// caller buffers).  The observables are canonical, so the three
 	// runs of a correct library agree; where the library's behaviour depends on something the input does not fix
 	// (Go map iteration order, what a pool hands out) a wrong answer may show in only some runs: a run whose
 	// observables differ from the first is evaluated as one more case.
@@ -215,7 +216,11 @@ func runCases(args []string) {
 		}
 		if qi < len(inputs) && !noReexec {
 			for k := 0; k < 2; k++ {
-				if again, e2 := pd.exec(raw); e2 == nil && again.Coq != res.Coq {
+				// the second and third run as a caller that builds its lists in reused buffers (goval.go callerSlice)
+				callerReusesBuffers = true
+				again, e2 := pd.exec(raw)
+				callerReusesBuffers = false
+				if e2 == nil && again.Coq != res.Coq {
 					meta.ReexecDiffered++
 					reexec[string(raw)] = again.Coq
 					queue = append(queue, raw)
